@@ -480,10 +480,8 @@ impl PartialEq for JsStr<'_> {
 impl PartialEq<str> for JsStr<'_> {
     #[inline]
     fn eq(&self, other: &str) -> bool {
-        match self.variant() {
-            JsStrVariant::Latin1(v) => v == other.as_bytes(),
-            JsStrVariant::Utf16(v) => other.encode_utf16().zip(v).all(|(a, b)| a == *b),
-        }
+        // Compare code units (not UTF-8 bytes) and make sure both sequences have the same length.
+        self.iter().eq(other.encode_utf16())
     }
 }
 
